@@ -329,21 +329,25 @@ Fixpoint remove_z (x : Z) (l : list Z) : list Z :=
   match l with [] => [] | y :: r => if Z.eqb y x then r else y :: remove_z x r end.
 
 (* The random draws are arguments: [draw_ok] = (probability > random.random()),
-   [pick] = the index random.choice used.  Result: Some v = value_selection(v, best) was called,
-   None = no change. *)
+   [pick] = the index random.choice used.  Result: Ok (Some v) = value_selection(v, best) was
+   called, Ok None = no change, Err ErrIndex = random.choice on an empty list of best values
+   (only possible when every candidate cost is nan). *)
 Definition dsa_choice (vr : variant) (violated : bool) (cur_val : Z)
-           (cur_cost : ecost) (best : list Z * ecost) (draw_ok : bool) (pick : nat) : option Z :=
+           (cur_cost : ecost) (best : list Z * ecost) (draw_ok : bool) (pick : nat)
+  : res (option Z) :=
   let d := delta cur_cost (snd best) in
-  let change (cands : list Z) := if draw_ok then nth_error cands pick else None in
+  let change (cands : list Z) : res (option Z) :=
+    if draw_ok then match cands with [] => Err ErrIndex | _ => Ok (nth_error cands pick) end
+    else Ok None in
   let trimmed := if Nat.ltb 1 (List.length (fst best)) then remove_z cur_val (fst best) else fst best in
   if ec_ltb (Fin 0) d then change (fst best)
   else if ec_eqb d (Fin 0) then
     match vr with
-    | VA => None
-    | VB => if violated then change trimmed else None
+    | VA => Ok None
+    | VB => if violated then change trimmed else Ok None
     | VC => change trimmed
     end
-  else None.
+  else Ok None.
 
 (* one evaluation of DsaComputation.evaluate_cycle: neighbours' values [a] (own value already
    stored in it), constraints [cs] *)
@@ -352,7 +356,7 @@ Definition dsa_evaluate (x : var) (vr : variant) (m : mode) (a : assignment) (cs
   let a1 := dict_set Z.eqb (v_name x) cur_val a in
   best <- find_optimal x a1 cs m ;;
   cur <- assignment_cost a1 cs false ;;
-  Ok (dsa_choice vr violated cur_val cur best draw_ok pick).
+  dsa_choice vr violated cur_val cur best draw_ok pick.
 
 (* DsaTutoComputation.on_new_cycle: the cost of the current assignment is computed first; moves
    to the FIRST best value when current - best > 0 and the coin (0.5 > random.random()) allows *)
@@ -361,8 +365,9 @@ Definition dsatuto_evaluate (x : var) (m : mode) (a : assignment) (cs : list rel
   let a1 := dict_set Z.eqb (v_name x) cur_val a in
   cur <- assignment_cost a1 cs false ;;
   best <- find_optimal x a1 cs m ;;
-  Ok (if ec_ltb (Fin 0) (ec_add cur (ec_neg (snd best))) && draw_ok
-      then hd_error (fst best) else None).
+  if ec_ltb (Fin 0) (ec_add cur (ec_neg (snd best))) && draw_ok
+  then match fst best with [] => Err ErrIndex | v :: _ => Ok (Some v) end   (* arg_min[0] *)
+  else Ok None.
 
 (* ---------- correspondence ---------- *)
 Definition err_eqb (a b : err) : bool :=
